@@ -19,7 +19,7 @@ def one(d):
             return d, meta, 'nobuild'
         fired = {}
         for p in PROPS:
-            r = subprocess.run([os.path.join(ROOT, 'bin', 'sacheck'), '-prop', p, '-repo', t, '-verif', ROOT, '-out', os.path.join(t, 'ev.json')], env=ENV, capture_output=True, text=True)
+            r = subprocess.run([os.environ.get('SACHECK', os.path.join(ROOT, 'bin', 'sacheck')), '-prop', p, '-repo', t, '-verif', ROOT, '-out', os.path.join(t, 'ev.json')], env=ENV, capture_output=True, text=True)
             rules = sorted({l.split('rule=')[1].split(' ')[0] for l in r.stdout.splitlines() if l.startswith('VIOLATED') or l.startswith('UNDECIDED')})
             if rules:
                 fired[p] = rules
